@@ -399,6 +399,7 @@ class Calibration:
             population_size=self.algorithm.population_size,
             fitness_func=self.fitness_function,
             file_path=output_dir,
+            pipeline_seed=self.pipeline_seed,
         )
 
         problem.configure(
